@@ -1,7 +1,7 @@
 (* Extraction of the executable models and specifications (ExtrOcamlBasic only; Z kept as
    the extracted inductive). *)
 Require Import MV.Base.Prelude MV.Base.CInt MV.Base.Index MV.Base.BorderSpec.
-Require Import MV.Gen.Scalar_gen MV.Model.Filter MV.Model.Morph MV.Model.Convolve MV.Model.Filters MV.Model.Labeled MV.Model.Label MV.Model.Extrema MV.Model.Watershed MV.Model.Distance MV.Model.Threshold MV.Model.Topology MV.Model.Wavelet MV.Model.Interp MV.Gen.Tables_gen MV.Gen.PyThresh_gen MV.Base.QHelp MV.Base.Renumber.
+Require Import MV.Gen.Scalar_gen MV.Model.Filter MV.Model.Morph MV.Model.Convolve MV.Model.Filters MV.Model.Labeled MV.Model.Label MV.Model.Extrema MV.Model.Watershed MV.Model.Distance MV.Model.Threshold MV.Model.Topology MV.Model.Wavelet MV.Model.Interp MV.Model.Texture MV.Gen.Tables_gen MV.Gen.PyThresh_gen MV.Base.QHelp MV.Base.Renumber.
 Require Import QArith.
 Require Extraction.
 Require Import ExtrOcamlBasic.
@@ -24,4 +24,5 @@ Extraction "model.ml"
   thin euler_x4 convexhull
   haar2d ihaar2d wavelet_row iwavelet_row daubechies_tables center_geom
   shift1 zoom1 spline_weights
+  cooc cooc_sym lbp_map integral moments
   mh_open mh_close mh_cdilate mh_cerode mh_tophat_open mh_tophat_close psubm.
